@@ -228,6 +228,17 @@ def run(repo, rep):
              'assignment reads the name itself, are what they are meant to be)', 1)
     p9 = []
     n9 = 0
+    # (positive example, checked on every run: the rule must see a choice that survives into the next iteration, and must accept
+    # the same loop with the choice reset at the top)
+    class _Loc:
+        def loc(self, n_=None):
+            return 'example:%d' % getattr(n_, 'lineno', 0)
+    _bad = ast.parse('chosen = None\nfor item in items:\n    for ts in item.ts:\n        if ts in ok:\n            chosen = ts\n            break\n'
+                     '    if chosen is None:\n        continue\n    use(chosen)\n').body[1]
+    _good = ast.parse('for item in items:\n    chosen = None\n    for ts in item.ts:\n        if ts in ok:\n            chosen = ts\n            break\n'
+                      '    if chosen is None:\n        continue\n    use(chosen)\n').body[0]
+    if not _stale_in_iteration(_bad, _Loc()) or _stale_in_iteration(_good, _Loc()):
+        raise AnalysisError('C09.N9 self-check failed: the rule does not tell its positive example from its negative one')
     for hf in repo.helper_closure(f):
         for lp in [x for x in ast.walk(hf.node) if isinstance(x, ast.For)]:
             if not any(isinstance(c_, ast.Call) and norm(c_.func).endswith('PresentationContextItemAC') for c_ in ast.walk(lp)):
